@@ -49,6 +49,7 @@ def main():
     meta = dict(seed=sid, checks={}, ran=[])
     try:
         demo_path = os.path.join(wt, demo_dir, "zz_seed_demo_test.go")
+        os.makedirs(os.path.dirname(demo_path), exist_ok=True)
         shutil.copyfile(os.path.join(dst, demo), demo_path)
         rc0, out0 = sh("go test -vet=off -count=1 -run '%s' ./%s/" % (demo_run, demo_dir), cwd=wt)
         meta["demo_without_change"] = "pass" if rc0 == 0 else "FAIL"
